@@ -96,3 +96,72 @@ func GosymH_C02_crash() {
 	}
 	gosym_Reach("done")
 }
+
+// GosymH_C02_cancel: the request context ends (client disconnect) immediately before any filesystem step of the
+// write; afterwards -- once the abandoned writer has run to completion -- the block path holds nothing, the
+// untouched old copy, or exactly the new block, the index lists true sizes, and an acknowledged PUT is durable.
+func GosymH_C02_cancel() {
+	blen := gosym_Param("bodylen", 3)
+	B := gosym_Bytes("body", blen, "any")
+	H := gosymHashFor(B)
+	cluster := &arvados.Cluster{}
+	path := "/vol/" + H[:3] + "/" + H
+	var old []byte
+	hadOld := false
+	if gosym_Fork("preexisting-corrupt") {
+		old = gosym_Bytes("old", gosym_Choice("old.len", blen+1), "any")
+		hadOld = true
+		gosym_FSMkdir("/vol")
+		gosym_FSPut(path, old, time.Unix(1500000000, 0))
+	}
+	gosym_FSMkdir("/vol")
+	ctx, cancel := context.WithCancel(context.Background())
+	gosym_FSEventPoint(cancel)
+	vm := gosymVolMgr([]*UnixVolume{gosymUnixVolume("/vol", false, cluster)})
+	_, perr := PutBlock(ctx, vm, B, H)
+	cancelled := ctx.Err() != nil
+	gosym_FSEventPoint(nil)
+	gosym_Quiesce() // the abandoned WriteBlock goroutine, if any, finishes on its own
+	if cancelled {
+		gosym_Reach("cancelled")
+	}
+	if gosym_FSExists(path) {
+		cur := gosym_FSGet(path)
+		ok := gosym_BytesEq(cur, B)
+		if hadOld {
+			ok = gosym_Or(ok, gosym_BytesEq(cur, old))
+		}
+		gosym_Assert(ok, "block-path-never-holds-partial-data")
+	}
+	vm2 := gosymVolMgr([]*UnixVolume{gosymUnixVolume("/vol", false, cluster)})
+	buf := make([]byte, blen+3)
+	n, gerr := GetBlock(context.Background(), vm2, H, buf, nil)
+	if gerr == nil {
+		gosym_Assert(gosym_BytesEq(buf[:n], B), "get-after-disconnect-returns-complete-block-or-error")
+	}
+	if perr == nil {
+		gosym_Assert(gerr == nil, "acknowledged-put-is-durable")
+		gosym_Reach("acknowledged")
+	}
+	var idx bytes.Buffer
+	gosym_Assert(vm2.mounts[0].IndexTo("", &idx) == nil, "index-succeeds")
+	for _, ln := range strings.Split(idx.String(), "\n") {
+		if ln == "" {
+			continue
+		}
+		plus := strings.Index(ln, "+")
+		sp := strings.Index(ln, " ")
+		gosym_Assert(plus == 32 && sp > plus && ln[:32] == H, "index-lists-only-block-names")
+		if plus == 32 && sp > plus {
+			sz, err := strconv.Atoi(ln[plus+1 : sp])
+			cur := gosym_FSGet(path)
+			gosym_Assert(err == nil && sz == len(cur), "index-size-is-true-size")
+			ok := gosym_BytesEq(cur, B)
+			if hadOld {
+				ok = gosym_Or(ok, gosym_BytesEq(cur, old))
+			}
+			gosym_Assert(ok, "index-lists-only-complete-blocks")
+		}
+	}
+	gosym_Reach("done")
+}
